@@ -1,6 +1,7 @@
 CONSTANTS
   LitMax = 2
   AppendMax = 4
+  NestMax = 3
   Sizes = {0, 1, 2, 3, 4, 5}
 SPECIFICATION Spec
 INVARIANTS TypeOK CloseAtMostOnce DoneMeansClean
